@@ -5,6 +5,7 @@ package main
 
 import (
 	"bytes"
+	"context"
 	"fmt"
 	"net/http"
 	"net/http/httptest"
@@ -287,6 +288,7 @@ func c09Pacing(c *Ctx) {
 		asset, rep string
 		k, atoMS   int
 		delayMS    int // request this long after the advertised availability time
+		startS     int // availabilityStartTime (start_ in the URL)
 	}
 	var jobs []job
 	for _, as := range []string{"gen_short", "gen_192", "testpic_2s"} {
@@ -305,13 +307,15 @@ func c09Pacing(c *Ctx) {
 				continue
 			}
 			for i := 0; i < c.N(1, 6); i++ {
-				jobs = append(jobs, job{as, rep, 5 + c.Rng.Intn(40), a.SegmentDurMS * c.Rng.Pick(2, 3) / 4 / 125 * 125, c.Rng.Pick(0, 1, 100, 400)})
+				jobs = append(jobs, job{as, rep, 5 + c.Rng.Intn(40), a.SegmentDurMS * c.Rng.Pick(2, 3) / 4 / 125 * 125, c.Rng.Pick(0, 1, 100, 400), 0})
+				// the same with a start time: media time zero is at availabilityStartTime for every representation's timescale
+				jobs = append(jobs, job{as, rep, 5 + c.Rng.Intn(40), a.SegmentDurMS * c.Rng.Pick(2, 3) / 4 / 125 * 125, c.Rng.Pick(0, 1, 100), c.Rng.Pick(7, 100, 1000)})
 			}
 			// chunks of about one sample (not a whole number of milliseconds: 21.33 ms AAC frames, 33.3 ms pictures), asked
 			// for 300 ms before the segment ends: many release instants, where rounding must not add up
 			if a.SegmentDurMS > 400 {
 				ato := a.SegmentDurMS - c.Rng.Pick(22, 34, 45)
-				jobs = append(jobs, job{as, rep, 5 + c.Rng.Intn(40), ato, ato - 300})
+				jobs = append(jobs, job{as, rep, 5 + c.Rng.Intn(40), ato, ato - 300, 0})
 			}
 		}
 	}
@@ -327,19 +331,31 @@ func c09Pacing(c *Ctx) {
 				return
 			}
 			e := expectSeg(a, ref, j.k, 0)
-			av, _ := availMS(e, ref.MediaTimescale, 0, 0)
+			av, _ := availMS(e, ref.MediaTimescale, j.startS, 0)
 			now := av - int64(j.atoMS) + int64(j.delayMS)
 			cfg := fmt.Sprintf("ato=%d,chunkdur=0.25", j.atoMS)
+			if j.startS != 0 {
+				cfg += fmt.Sprintf(",start=%d", j.startS)
+			}
 			url := segURL(a, cfg, j.rep, strconv.Itoa(e.nr), strconv.FormatInt(now, 10))
 			rec := &timedRecorder{ResponseRecorder: httptest.NewRecorder(), start: time.Now()}
-			req := httptest.NewRequest("GET", url, nil)
+			// the whole segment has ended atoMS - delayMS after the request: a response that is still being paced 2 s after
+			// that is late (the request is cancelled then)
+			ctx, cancel := context.WithTimeout(context.Background(), time.Duration(j.atoMS-j.delayMS+2000)*time.Millisecond)
+			req := httptest.NewRequest("GET", url, nil).WithContext(ctx)
 			func() {
 				defer func() { _ = recover() }()
 				s.LiveRouter.ServeHTTP(rec, req)
 			}()
+			timedOut := ctx.Err() != nil
+			cancel()
 			mu.Lock()
 			defer mu.Unlock()
 			c.Count("paced-requests")
+			if timedOut {
+				c.Violate("ll-late", fmt.Sprintf("the response is still not complete 2 s after the segment has ended (request at the advertised availability time + %d ms)", j.delayMS), []string{"# GET " + url}, nil)
+				return
+			}
 			if rec.Code != 200 {
 				c.Violate("ll-paced-status", fmt.Sprintf("request at the advertised availability time + %d ms answered %d", j.delayMS, rec.Code), []string{"# GET " + url}, nil)
 				return
@@ -359,7 +375,7 @@ func c09Pacing(c *Ctx) {
 					continue
 				}
 				last := ss[len(ss)-1]
-				endMS := int64(last.t+uint64(last.dur)) * 1000 / T // floor, as the server computes it
+				endMS := int64(last.t+uint64(last.dur))*1000/T + int64(j.startS)*1000 // floor, as the server computes it
 				simNow := now + fl.at.Milliseconds()
 				if simNow+1 < endMS { // 1 ms tolerance for the timestamp taken after the write
 					c.Violate("ll-early", fmt.Sprintf("flush %d at simulated %d ms delivers media ending at %d ms (%d ms early)", fi, simNow, endMS, endMS-simNow), []string{"# GET " + url}, nil)
